@@ -99,6 +99,7 @@ impl Cmd {
 struct Expected {
   done: bool,
   entries: Vec<(u64, String, u8, Vec<(u64, u64)>)>,
+  cap: u64,
 }
 fn parse_expected(ans: &str, n: usize) -> Option<Vec<Expected>> {
   let body = ans.strip_prefix("OK")?;
@@ -124,7 +125,8 @@ fn parse_expected(ans: &str, n: usize) -> Option<Vec<Expected>> {
       i += 4 + 2 * nr;
       entries.push((id, st, d, r));
     }
-    out.push(Expected { done, entries });
+    let cap: u64 = if t.get(i) == Some(&"C") { t.get(i + 1).and_then(|x| x.parse().ok()).unwrap_or(0) } else { 0 };
+    out.push(Expected { done, entries, cap });
   }
   if out.len() == n {
     Some(out)
@@ -289,6 +291,26 @@ fn history(rep: &mut Report, orc: &mut Oracle, rng: &mut Rng, scratch: &str, hid
       if l.code != Some(0) || got_lines != exp_lines {
         rep.violation("mocset list differs from the reference model", &shown(), &format!("exit {:?}: {}", l.code, got_lines.join(" / ").chars().take(600).collect::<String>()), &exp_lines.join(" / ").chars().take(600).collect::<String>(), "C14_append_then_extract / C14_purge_drops_exactly_removed / C14_chgstatus_effect");
         return;
+      }
+      // the file itself, byte for byte, against the layout of the model's state (Model/MocSetBytes.v)
+      if exp[i].cap > 0 {
+        if let Ok(bytes) = std::fs::read(&file) {
+          if bytes.len() <= 60_000 {
+            rep.evaluations += 1;
+            rep.count("file-bytes-exact");
+            let mut req = format!("MSETB {} {}", (exp[i].cap + 1) / 128, exp[i].entries.len());
+            for (id, st, d, rr) in &exp[i].entries {
+              req.push_str(&format!(" {} {} {} {}", id, st, d, ranges_str(rr)));
+            }
+            let model = orc.ask(&req);
+            let hx: String = bytes.iter().map(|b| format!("{:02x}", b)).collect();
+            if model != format!("OK {}", hx) {
+              let pos = model.bytes().skip(3).zip(hx.bytes()).position(|(a, b)| a != b).unwrap_or(hx.len().min(model.len().saturating_sub(3))) / 2;
+              rep.corr_break("the moc-set file differs from the byte-level layout of the model's state", &format!("{} # {}", shown(), req.chars().take(300).collect::<String>()), &format!("{} bytes, first difference at byte {}", bytes.len(), pos), &format!("{} bytes", model.len().saturating_sub(3) / 2), "crates/set file == Model/MocSetBytes.v file_bytes (C14_file_layout_decodes)");
+              return;
+            }
+          }
+        }
       }
       // extract: every live identifier (first live entry wins), and one removed / unknown identifier
       let mut seen: Vec<u64> = Vec::new();
